@@ -9,24 +9,24 @@ SCHED = "stateless schedule exploration of the instrumented real code under a co
 C = {
  "C01": ("seq", SEQ, "Every reachable concrete tree over a small value universe under a size bound is visited (fixpoint, so histories of every length), with duplicates, absent values, Clear and Clone, and every public observer compared with a sorted-multiset model after every transition; beyond the bound, deterministic families (700-value fills, every single/double removal from trees of every size up to 96/300 built in 7 orders, 10^5-10^6-operation churn on one tree). Right level: an invariant over all histories of a sequential structure.", "Values/size bounded as in evidence.configs; comparator is a consistent total order; reflective fingerprint walker is trusted to separate states.", "3.C01"),
  "C02": ("seq", SEQ + "; plus parametrised insertion/deletion families up to n=1100", "All insertion/deletion interleavings over distinct values up to the size bound (9/12) are enumerated to fixpoint and the shape reconstructed from pre+in order must be AVL-balanced with depth <= 1.4405 log2(n+2); insertion/deletion-order families to n=1100, build-then-remove families (every single and double removal) and churn histories cover sizes the BFS cannot.", "Balance beyond the size bound only along the 9 families; O(log n) checked as comparator-call budget, not wall time.", "3.C02"),
- "C03": ("seq", SEQ + "; all ordered pairs of operand layouts x 4 implementation pairings", "Every concrete layout a 3-value sync2.Set can reach (read/dirty/expunged/promoted) and every maps.Set are used as both operands of every binary operation, with operand-unchanged and detachment checks.", "Universe of 3 values; set enumeration order unconstrained.", "3.C03"),
- "C04": ("sched", SEQ + " for single-goroutine histories; " + SCHED + " with porcupine linearizability checking and the race detector inside every explored schedule", "Sequential: all call sequences of any length over 2-3 keys (fixpoint). Concurrent: every pair of calls from 8 start layouts under ALL interleavings at atomic/mutex granularity, triples and two-call programs under a preemption bound; histories judged by porcupine; data races judged by TSan per schedule.", "Go atomics sequentially consistent; bounds on threads/calls/preemptions as reported; shims (vsync/vatomic) model the documented semantics.", "3.C04"),
- "C05": ("sched", SCHED + " with porcupine set model (composite calls decomposed) and in-schedule race detection", "Pairs of calls under all interleavings, triples and two-call programs under a preemption bound, from 6 start layouts; per-value alternation of successful Add/Remove is exactly linearizability to a set.", "At most 4 goroutines, 2 values; more goroutines are outside the bound.", "3.C05"),
- "C06": ("seq", SEQ + " with container/list and container/ring driven in lock-step as the reference", "All reachable joint states of two lists with a table of element handles (live, removed, foreign), and of rings up to N cells, to fixpoint; every return value, traversal and neighbour compared with the standard library.", "Handle table / cell count bounded; elements orphaned by Init are not reused.", "3.C06"),
+ "C03": ("seq", SEQ + "; all ordered pairs of operand layouts x 4 implementation pairings", "Every concrete layout a 3-value sync2.Set can reach (read/dirty/expunged/promoted) and every maps.Set are used as both operands of every binary operation, with operand-unchanged and detachment checks; the layout search starts from the empty set and from every NewSetFrom* result and continues on clones.", "Universe of 3 values; set enumeration order unconstrained.", "3.C03"),
+ "C04": ("sched", SEQ + " for single-goroutine histories; " + SCHED + " with porcupine linearizability checking and the race detector inside every explored schedule", "Sequential: all call sequences of any length over 2-3 keys (fixpoint). Concurrent: every pair of calls from 8 start layouts under ALL interleavings at atomic/mutex granularity, triples and two-call programs under a preemption bound, calls made from inside a Range callback; histories judged by porcupine; data races judged by TSan per schedule.", "Go atomics sequentially consistent; bounds on threads/calls/preemptions as reported; shims (vsync/vatomic) model the documented semantics.", "3.C04"),
+ "C05": ("sched", SCHED + " with porcupine set model (composite calls decomposed) and in-schedule race detection", "Pairs of calls under all interleavings, triples and two-call programs under a preemption bound, from every reachable start layout, AddSet/RemoveSet with operands of 32/33 (thorough to 200) values against promoting threads; per-value alternation of successful Add/Remove is exactly linearizability to a set.", "At most 4 goroutines, 2 values; more goroutines are outside the bound.", "3.C05"),
+ "C06": ("seq", SEQ + " with container/list and container/ring driven in lock-step as the reference", "All reachable joint states of two lists with a table of element handles (live, removed, foreign), and of rings up to N cells, to fixpoint; every return value, traversal and neighbour compared with the standard library; scripted lists to 4097 elements and a ring ladder to 70001 (thorough 3*10^6) cells beyond the bound.", "Handle table / cell count bounded; elements orphaned by Init are not reused.", "3.C06"),
  "C07": ("seq", SEQ, "From every initial slice over {0,1,2} and three less functions, every Add/Remove/RemoveAt history under the size bound to fixpoint; sortedness, exact multiset, returned positions, panics outside [0,Len), copy semantics of the constructor.", "Values {0,1,2} (+absent -1,3), size bound as reported.", "3.C07"),
- "C08": ("enum", ENUM + " over all shapes and all operation pairs", "Every shape up to 4x4 (5x5), every coordinate in and out of bounds, every span/rectangle/jagged input, every ordered pair of operations for small shapes, against a cell-grid model with a frame condition.", "Shapes bounded; values are position labels.", "3.C08"),
- "C09": ("sched", SCHED + " with occupancy/blocking oracles and in-schedule race detection", "Programs of lock/try-lock/read-lock acquisitions over 2 keys by 2-4 threads, fresh and used keys; mutual exclusion via occupancy counters inside critical sections, Try* never blocked in a stable state, cross-key independence via dedicated hold scenarios and the no-block oracle; any deadlock is a violation.", "RWMutex modelled with Go's writer preference; ClearKey only on idle keys.", "3.C09"),
- "C10": ("sched", SCHED + " with a delivery-ledger oracle; channels, select, timers, WaitGroup and RWMutex are model objects", "Six publish variants x 0-2(3) subscribers x buffer sizes x timeout on/off x eight concurrent management actions, run to quiescence under delay- and preemption-bounded exhaustive scheduling; exactly-once, order, completion-before-return, delivered-xor-timed-out, close/err behaviour, no panic.", "Timers untimed (may fire any time); bounds as reported; async variants judged at quiescence. Known findings listed in known_findings.txt.", "3.C10"),
+ "C08": ("enum", ENUM + " over all shapes and all operation pairs", "Every shape up to 4x4 (5x5), every coordinate in and out of bounds, every span/rectangle/jagged input, every ordered pair of operations for small shapes, against a cell-grid model with a frame condition; the same model over 12 element types (pointers, interfaces, NaN/-0, slices, maps) with String rendered cell by cell.", "Shapes bounded; values are position labels.", "3.C08"),
+ "C09": ("sched", SCHED + " with occupancy/blocking oracles and in-schedule race detection", "Programs of lock/try-lock/read-lock acquisitions over 2 keys by 2-4 threads, fresh and used keys; mutual exclusion via occupancy counters inside critical sections, Try* never blocked in a stable state, cross-key independence via dedicated hold scenarios and the no-block oracle; any deadlock is a violation; 16..4096 keys in use; 7 further key types whose keys have several ==-equal spellings (+0.0/-0.0, equal strings in different memory).", "RWMutex modelled with Go's writer preference; ClearKey only on idle keys.", "3.C09"),
+ "C10": ("sched", SCHED + " with a delivery-ledger oracle; channels, select, timers, WaitGroup and RWMutex are model objects", "Six publish variants x 0-2(3) subscribers x buffer sizes x timeout on/off x eight concurrent management actions, run to quiescence under delay- and preemption-bounded exhaustive scheduling; exactly-once, order, completion-before-return, delivered-xor-timed-out, close/err behaviour, no panic; plus an explicit-state search to fixpoint over the sequential API (handles kept after removal, retained WithOnly publishers).", "Timers untimed (may fire any time); bounds as reported; async variants judged at quiescence. Known findings listed in known_findings.txt.", "3.C10"),
  "C11": ("seq", SEQ, "All reachable Bimap states over K=V={0..3} incl. clones and the zero value, to fixpoint; inverse-bijection invariant and set-of-pairs model after every transition; clone independence after every single mutation.", "Universe of 4-5 keys/values.", "3.C11"),
- "C12": ("enum", ENUM, "All lengths x spare capacities (dirty hidden region) x positions x inserted/removed lengths; Fill/Repeat for every length; Concat/Clone aliasing in both directions.", "Lengths up to the bound in evidence.rule.", "3.C12"),
- "C13": ("enum", ENUM, "All n x all sizes: count, piece lengths, concatenation, windows and pairs in order, Func variants receive the same sequence.", "n up to the bound.", "3.C13"),
+ "C12": ("enum", ENUM, "All lengths x spare capacities (dirty hidden region) x positions x inserted/removed lengths; Fill/Repeat for every length; Concat/Clone aliasing in both directions; the same splice model over 10 element types compared by bit pattern / identity (-0.0, NaN, IsZero-method types, pointers, time.Time).", "Lengths up to the bound in evidence.rule.", "3.C12"),
+ "C13": ("enum", ENUM, "All n x all sizes x spare capacities behind the slice: count, piece lengths, concatenation, windows and pairs in order, Func variants receive the same sequence.", "n up to the bound.", "3.C13"),
  "C14": ("enum", ENUM, "All slices over {0,1,2} up to length 5(7), complete callback families (all predicates, all keyers, non-commutative accumulators, failing converters at every position), all small maps; input snapshots and detachment.", "Alphabet of 3 values.", "3.C14"),
- "C15": ("enum", ENUM, "All ternary slices up to length 8(10) and all binary slices up to 15(20) tagged with original indices through all six sort functions; all sorted slices x all targets for the searches; ShuffleRand determinism over 64 seeds.", "sort.Sort is insertion sort (stable) below 13 elements, hence binary keys up to 15-20.", "3.C15"),
- "C16": ("seq", SEQ + "; plus fill/drain saw-tooth families up to thousands of elements", "All reachable Queue/Stack states from the zero value under a size bound incl. hidden capacity, drained and reused after every transition; saw-tooth families reach capacity-dependent paths.", "Values {1,2}; size bound as reported.", "3.C16"),
- "C17": ("sched", SCHED + " with in-schedule race detection", "2-4 concurrent Do callers (own functions with internal yield points) plus a later caller, all three arities, all interleavings: exactly one invocation, same results, completion before return.", "sync.Once modelled by the standard algorithm over instrumented primitives.", "3.C17"),
- "C18": ("sched", SCHED + " with porcupine register model; Pool hit/miss as enumerated environment answers; in-schedule race detection", "All pairs of 1-2 call programs and triples of calls on AtomicValue under all interleavings; Pool Get/Put programs with every hit/miss answer; token ownership oracle; TSan decides data-race freedom per schedule.", "sync.Pool over-approximated by a multiset with nondeterministic misses.", "3.C18"),
- "C19": ("sched", SCHED + " with a value-conservation oracle; channels, select, timers and context cancellation are model objects", "Every capacity x fill x closed x limit for the queued receivers (never blocked, FIFO, nothing invented); helper || peer || timer/canceller under all interleavings with every ready select case tried.", "Timers untimed; sends on closed channels outside the property.", "3.C19"),
- "C20": ("enum", ENUM, "All pairs and triples of int8/uint8, boundary sets for wider types and floats, every 8/16-bit value and every (strided in quick) 32-bit value for the digit functions, complete truth tables for the utility helpers; references strconv and wide arithmetic.", "64-bit and float ranges covered by boundary sets only.", "3.C20"),
+ "C15": ("enum", ENUM, "All ternary slices up to length 8(10) and all binary slices up to 15(20) tagged with original indices through all six sort functions; all sorted slices x all targets for the searches; 16 ordered element types with the extremes of their ranges at lengths to 1000 (70000); ShuffleRand determinism over 64 seeds.", "sort.Sort is insertion sort (stable) below 13 elements, hence binary keys up to 15-20.", "3.C15"),
+ "C16": ("seq", SEQ + "; plus fill/drain saw-tooth families up to thousands of elements", "All reachable Queue/Stack states from the zero value under a size bound incl. hidden capacity, drained and reused after every transition; saw-tooth families reach capacity-dependent paths; a one-pass fill of one stack and one queue to 2^21 (2^24) values with Len/Peek after every call.", "Values {1,2}; size bound as reported.", "3.C16"),
+ "C17": ("sched", SCHED + " with in-schedule race detection", "2-5 (6 at preemption bound 3) concurrent Do callers (own functions with internal yield points) plus a later caller, all three arities, all interleavings: exactly one invocation, same results, completion before return; actions leaving through Goexit/panic; two calls per caller; nested chains of Do over 70-300 (5000) distinct Once values on 1-3 threads.", "sync.Once modelled by the standard algorithm over instrumented primitives.", "3.C17"),
+ "C18": ("sched", SCHED + " with porcupine register model; Pool hit/miss as enumerated environment answers; in-schedule race detection", "All pairs of 1-2 call programs and triples of calls on AtomicValue under all interleavings; the same register model over 7 element types whose values are alike but different under ==; Pool Get/Put programs with every hit/miss answer, 15..4096 idle items; token ownership oracle; TSan decides data-race freedom per schedule.", "sync.Pool over-approximated by a multiset with nondeterministic misses.", "3.C18"),
+ "C19": ("sched", SCHED + " with a value-conservation oracle; channels, select, timers and context cancellation are model objects", "Every capacity x fill x closed x limit for the queued receivers (never blocked, FIFO, nothing invented); queues of 65537/70000 (thorough 2^20+1) values; helper || peer || timer/canceller under all interleavings with every ready select case tried; threads making two helper calls in a row and triples of helpers under the same conservation oracle.", "Timers untimed; sends on closed channels outside the property.", "3.C19"),
+ "C20": ("enum", ENUM, "All pairs and triples of int8/uint8, boundary sets for wider types and floats, every 8/16-bit value and every (strided in quick) 32-bit value for the digit functions, complete truth tables for the utility helpers, Coal and the identities over every argument tuple of length 0..3 for 14 types; references strconv and wide arithmetic.", "64-bit and float ranges covered by boundary sets only.", "3.C20"),
 }
 
 checks = []
